@@ -134,6 +134,58 @@ class AttrInfo:
         return "<attr %s.%s %s>" % (self.cls.name, self.name, self.kind)
 
 
+class _DesugarLiteralLoops(ast.NodeTransformer):
+    """`for x in (a, b): P; if t: S; break` + `else: E` over a written-out tuple / list is the
+    if / else chain  x = a; P; if t: S  else: (x = b; P; if t: S  else: E).  Every engine then
+    sees ordinary branches.  A literal loop without break that carries an `else` is the loop
+    followed by the else block.  Other loops are left alone."""
+
+    def visit_For(self, node):
+        self.generic_visit(node)
+        if not isinstance(node.iter, (ast.Tuple, ast.List)) or not (0 < len(node.iter.elts) <= 8) or any(isinstance(e, ast.Starred) for e in node.iter.elts):
+            return node
+        inner = [n for st in node.body for n in ast.walk(st)]
+        # break / continue belonging to this loop (not to a nested one)
+        def own(kind):
+            out = []
+            stack = list(node.body)
+            while stack:
+                n = stack.pop()
+                if isinstance(n, kind):
+                    out.append(n)
+                if isinstance(n, (ast.For, ast.While, ast.FunctionDef, ast.AsyncFunctionDef, ast.Lambda, ast.ClassDef)):
+                    continue
+                stack.extend(ast.iter_child_nodes(n))
+            return out
+
+        breaks, conts = own(ast.Break), own(ast.Continue)
+        if conts:
+            return node
+        if not breaks:
+            if node.orelse:
+                tail = node.orelse
+                node.orelse = []
+                return [node] + tail
+            return node
+        last = node.body[-1]
+        if len(breaks) != 1 or not isinstance(last, ast.If) or last.orelse or not last.body or last.body[-1] is not breaks[0]:
+            return node
+        import copy
+
+        chain = list(node.orelse)
+        for elt in reversed(node.iter.elts):
+            bind = ast.copy_location(ast.Assign(targets=[copy.deepcopy(node.target)], value=elt), node)
+            for t in ast.walk(bind.targets[0]):
+                if hasattr(t, "ctx"):
+                    t.ctx = ast.Store()
+            pre = [copy.deepcopy(st) for st in node.body[:-1]]
+            taken = [copy.deepcopy(st) for st in last.body[:-1]] or [ast.copy_location(ast.Pass(), last)]
+            test = copy.deepcopy(last.test)
+            iff = ast.copy_location(ast.If(test=test, body=taken, orelse=chain), last)
+            chain = [bind] + pre + [iff]
+        return chain
+
+
 class ClassInfo:
     def __init__(self, node, module):
         self.node = node
@@ -261,6 +313,8 @@ class Program:
                     tree = ast.parse(src, filename=path)
                 except SyntaxError as e:
                     raise AnalysisIncomplete("syntax error in %s: %s" % (path, e))
+                tree = _DesugarLiteralLoops().visit(tree)
+                ast.fix_missing_locations(tree)
                 mod = ModuleInfo(name, path, tree, src, is_pkg, root=self.repo)
                 self.modules[name] = mod
                 self._index(mod)
